@@ -693,6 +693,12 @@ func ConvertTypedValueToYANGType(schemaElem *sdcpb.SchemaElem, tv *sdcpb.TypedVa
 			return ctv, nil
 		case "enumeration":
 			return tv, nil
+		case "leafref":
+			// the value of a leafref is of the type of the leaf it refers to
+			if targetType := schemaElem.GetField().GetType().GetLeafrefTargetType(); targetType != nil {
+				return ConvertTypedValueToYANGType(&sdcpb.SchemaElem{Schema: &sdcpb.SchemaElem_Field{Field: &sdcpb.LeafSchema{Type: targetType}}}, tv)
+			}
+			return tv, nil
 		case "boolean":
 			v, err := strconv.ParseBool(TypedValueToString(tv))
 			if err != nil {
